@@ -261,3 +261,53 @@ Example C14_wind_cuts :
   /\ w_mm_read 1 2 (firstn 25 (w_enc c)) 98 = WErr                                      (* not a whole number of words *)
   /\ (exists v, w_mm_read 1 2 (firstn 48 (w_enc c)) 192 = WOk v /\ wv_ntimes v = 2).
 Proof. vm_compute. repeat split; try reflexivity; eexists; split; reflexivity. Qed.
+
+(* ======================================================================================================
+   CAMx cloud/rain files (Model/CloudRain.v): every byte prefix
+   ====================================================================================================== *)
+From PNC Require Import Model.CloudRain Proofs.CloudRainProofs.
+
+(* EVERY byte prefix of EVERY well-formed file: if the reader accepts it, the prefix is the header plus a whole number of
+   steps of one of the two layouts, and when the layout the reader picked is the file's own, it presents exactly the first
+   steps of the content. (Nothing shorter than the header and 12 bytes is accepted.) *)
+Theorem C14_cloudrain_every_prefix : forall c n v, c_wf c = true -> 0 <= n <= 4 * Z.of_nat (length (c_enc c)) ->
+  cr_mm_read (firstn (Z.to_nat ((n + 3) / 4)) (c_enc c)) n = Ok v ->
+  exists nv, (nv = 3 \/ nv = 5) /\ cv_nvars v = nv /\ 0 < cv_ntimes v /\ n = c_hdr_bytes + cv_ntimes v * c_timesize c nv /\
+    (nv = c_nvars c ->
+       (Z.to_nat (cv_ntimes v) <= length (c_steps c))%nat /\ v = c_view_of (c_truncate_steps (Z.to_nat (cv_ntimes v)) c)).
+Proof. exact cr_every_prefix. Qed.
+Print Assumptions C14_cloudrain_every_prefix.
+
+(* a cut after k whole steps is read as those k steps whenever that size is unambiguous *)
+Theorem C14_cloudrain_whole_step_prefix : forall c k, c_wf c = true -> (1 <= k <= length (c_steps c))%nat ->
+  c_unambiguous (c_truncate_steps k c) = true ->
+  let n := c_hdr_bytes + Z.of_nat k * c_step_bytes c in
+  cr_mm_read (firstn (Z.to_nat ((n + 3) / 4)) (c_enc c)) n = Ok (c_view_of (c_truncate_steps k c)).
+Proof. exact cr_whole_step_prefix. Qed.
+Print Assumptions C14_cloudrain_whole_step_prefix.
+
+(* INHERENT: the other alternative of C14_cloudrain_every_prefix is real. A 5-field file cut after the header, the first time
+   record and three records IS a valid one-step 3-field file (CLOUD, then RAIN presented as PRECIP and SNOW as COD).
+   Replays on the library: finding cloud-rain-prefix-other-layout (region 20). *)
+Definition C14_cloudrain_example : cloudrain :=
+  {| c_desc := [1; 2; 3; 4; 5]; c_nx := 2; c_ny := 1; c_nz := 1; c_nvars := 5;
+     c_steps := [CStep 1147207680 99361 [[[11; 12]; [13; 14]; [15; 16]; [17; 18]; [19; 20]]];
+                 CStep 1148846080 99361 [[[21; 22]; [23; 24]; [25; 26]; [27; 28]; [29; 30]]]] |}.
+Theorem C14_cloudrain_prefix_other_layout_refuted :
+  c_wf C14_cloudrain_example = true /\
+  exists v, cr_mm_read (firstn 26 (c_enc C14_cloudrain_example)) 104 = Ok v /\ cv_nvars v = 3 /\ cv_ntimes v = 1 /\
+            cv_data v = [[[[11; 12]; [13; 14]; [15; 16]]]].
+Proof. vm_compute. split; [reflexivity|]. eexists. repeat split. Qed.
+Print Assumptions C14_cloudrain_prefix_other_layout_refuted.
+
+Example C14_cloudrain_cuts :
+  let c := C14_cloudrain_example in
+  length (c_enc c) = 58%nat
+  /\ cr_mm_read (firstn 10 (c_enc c)) 40 = Err                                          (* the header alone *)
+  /\ cr_mm_read (firstn 13 (c_enc c)) 52 = Err
+  /\ cr_mm_read (firstn 33 (c_enc c)) 132 = Err                                         (* one step less its last word *)
+  /\ cr_mm_read (firstn 34 (c_enc c)) 135 = Err                                         (* not a whole number of words *)
+  /\ cr_mm_read (firstn 34 (c_enc c)) 136 = Ok (c_view_of (c_truncate_steps 1 c))       (* one whole step *)
+  /\ cr_mm_read (firstn 35 (c_enc c)) 140 = Err
+  /\ cr_mm_read (firstn 58 (c_enc c)) 232 = Ok (c_view_of c).
+Proof. vm_compute. repeat split. Qed.
